@@ -44,6 +44,54 @@ META = {
         "level_note": "trusted: reference model; the bcast_avg matcher (reference run with tangents scaled by 1/k at every expansion)",
         "assumptions": COMMON_ASSUMPTIONS,
     },
+    "C03": {
+        "run": "^TestC03_",
+        "shards": {"quick": 1, "thorough": 16},
+        "scale": {"quick": 1.0, "thorough": 10.0},
+        "rule": "generated: one of Scale/Pow/Exp/Log/Sin/Cos/Tan/Sinh/Cosh/Tanh, Add/Sub/Mul/Div on broadcast-compatible pairs (either or both operands expand, several dims at once, lower-rank operand may have the larger dims), ElMax/ElMin, the six comparisons and Equals on ranks 0..6, dims 1..4; values: position-coded lattice, zeros, negatives, forced exact ties, magnitudes 1e-300..1e300 (Eq/Ne/Equals: identical or >= 7e-3 apart). non-trivial = both operands expand, or rank >= 3, or ties present for a comparison, or Equals true; distinct by hash of the case JSON",
+        "oracle": "result shape = NumPy broadcast shape; every element equals the Go scalar function of the right-aligned operand elements (bit-exact for Scale/arithmetic/comparisons, -0==+0 for ElMax/ElMin, 1e-9 relative for transcendental functions); comparisons in {0,1}; Equals iff all positions equal; metamorphic: a.op(b) bit-identical to a.Broadcast(S).op(b.Broadcast(S))",
+        "required_classes": ["C03.both_operands_expand", "C03.first_operand_expands", "C03.second_operand_expands", "C03.ties", "C03.equals_true", "C03.equals_false", "C03.rank=6"] + ["C03.op=" + o for o in ["scale", "pow", "exp", "log", "sin", "cos", "tan", "sinh", "cosh", "tanh", "add", "sub", "mul", "div", "elmax", "elmin", "eq", "ne", "gt", "ge", "lt", "le", "equals"]],
+        "technique": "property-based testing (rapid): broadcast-pair generation vs flat reference model, plus implicit-vs-explicit broadcast metamorphic relation",
+        "level_text": "generated search over element-wise ops with implicit broadcasting on ranks 0..6 against a flat index-arithmetic reference with position-coded values, so any carry, alignment or operand-order error changes an observable element",
+        "level_note": "trusted: reference model; Go's math package as the definition of the scalar functions",
+        "assumptions": COMMON_ASSUMPTIONS,
+    },
+    "C04": {
+        "run": "^TestC04_",
+        "shards": {"quick": 1, "thorough": 16},
+        "scale": {"quick": 1.0, "thorough": 10.0},
+        "rule": "generated: MatMul with m,k,p in 1..4 drawn independently and batch shapes of rank 0..4 built as broadcast-compatible pairs (either operand may lack or collapse batch dims), Dot on ranks 1..6 with broadcast leading dims, Transpose on ranks 2..6; position-coded distinct values. non-trivial = batch shapes differ (expansion) or m,k,p pairwise different or Transpose of rank >= 3; distinct by hash of the case JSON",
+        "oracle": "result shape and every element equal the reference sum of products per broadcast batch index (1e-9 of the sum of |terms|); Transpose bit-exact; metamorphic on the library: A.Eye = A, Eye.B = B, (A.B)^T = B^T.A^T, Transpose(Transpose(A)) = A, Dot(a,b) = SumAlong(last)(a*b)",
+        "required_classes": ["C04.batch_expanded", "C04.first_has_fewer_batch_dims", "C04.second_has_fewer_batch_dims", "C04.m_k_p_pairwise_different", "C04.op=dot", "C04.op=matmul", "C04.op=transpose", "C04.rank=6"],
+        "technique": "property-based testing (rapid): batched shape generation vs flat reference model, plus algebraic identities as metamorphic relations",
+        "level_text": "generated search over batched, broadcast MatMul/Dot/Transpose shapes up to rank 6 against an index-arithmetic reference and four algebraic identities",
+        "level_note": "trusted: reference model",
+        "assumptions": COMMON_ASSUMPTIONS,
+    },
+    "C05": {
+        "run": "^TestC05_",
+        "shards": {"quick": 1, "thorough": 16},
+        "scale": {"quick": 1.0, "thorough": 10.0},
+        "rule": "generated: Sum/Max/Min/Avg/Mean/Var/Std on ranks 0..6 and their Along forms on ranks 1..6 with every dim, dims 1..4 pairwise different where possible, size-1 dims, values: lattice, all-negative, all-positive, mixed magnitudes up to 1e6. non-trivial = (rank >= 3 and 0 < dim < rank-1) or a fibre / tensor of one element or all-negative data; distinct by hash of the case JSON",
+        "oracle": "two-pass statistics per fibre addressed by index arithmetic: Max/Min exact, Sum/Avg within 1e-9 of sum|x|, Var within 1e-9*max|x|^2 (0 for one element), Std accordingly; Along shape = shape without dim; Avg == Mean bitwise; Std^2 == Var; Along form of a rank-1 tensor equals the scalar form",
+        "required_classes": ["C05.interior_dim", "C05.fibre_length_1", "C05.all_negative", "C05.single_element", "C05.rank=6"] + ["C05.op=" + o for o in ["sum", "max", "min", "avg", "var", "std", "mean", "sumalong", "maxalong", "minalong", "avgalong", "varalong", "stdalong", "meanalong"]],
+        "technique": "property-based testing (rapid): shape/dim generation vs two-pass reference statistics per fibre",
+        "level_text": "generated search over every reduction, rank 0..6 and every dim with distinct dimension sizes against independent two-pass statistics, so a wrong dim, window carry, fold identity or n vs n-1 changes an observable number",
+        "level_note": "trusted: the two-pass reference statistics in the check",
+        "assumptions": COMMON_ASSUMPTIONS,
+    },
+    "C06": {
+        "run": "^TestC06_",
+        "shards": {"quick": 1, "thorough": 16},
+        "scale": {"quick": 1.0, "thorough": 10.0},
+        "rule": "generated: At at every valid multi-index of tensors of rank 0..6, Slice/Patch with every mix of explicit / omitted / {0,0} / shorter-than-rank ranges and every source size and offset, Concat of 2-5 operands (repeats included) along every dim, Reshape to random factorizations, Flatten/Squeeze/UnSqueeze at every dim, Broadcast, Full/Zeros/Ones/Eye(1..6)/TensorOf(depth 0..4); payloads are arbitrary bit patterns (NaN, +-Inf, -0, denormals, position codes). non-trivial = rank >= 3, or an index mixing explicit and omitted ranges, or a Patch at a non-zero offset, or Concat of >= 3 operands on an interior dim; distinct by hash of the case JSON",
+        "oracle": "bit-exact agreement with index arithmetic on the flat reference; NElems == prod(Shape); round trips: Slice(block)(Patch(idx,s)) == s, Patch(idx, Slice(idx)(x)) == x, slicing a Concat returns each piece, Reshape(orig)(f(x)) == x and equal Flatten(0) sequences for every reshaping op",
+        "required_classes": ["C06.mixed_explicit_omitted_ranges", "C06.patch_nonzero_offset", "C06.concat>=3_interior_dim", "C06.rank=6"] + ["C06.op=" + o for o in ["at", "slice", "patch", "concat", "reshape", "flatten", "squeeze", "unsqueeze", "broadcast", "full", "zeros", "ones", "eye", "tensorof"]],
+        "technique": "property-based testing (rapid): index/shape argument generation vs flat reference model, plus round-trip relations",
+        "level_text": "generated search over indexing, reshaping and construction with arbitrary payload bit patterns against index arithmetic and round trips",
+        "level_note": "trusted: reference model; tensors of rank 5-6 are built by TensorOf+Reshape and read through At, which this check verifies against the flat values",
+        "assumptions": COMMON_ASSUMPTIONS,
+    },
 }
 
 # reasons for properties without a claimed check (kept current while checks are being built)
